@@ -778,6 +778,12 @@ def rule_block_cover(rep, res, entry=None, rule="R-COVER"):
                 if not fd:
                     continue
                 block = norm_text(fd[0].right)
+                # rounded-up trip counts: -(-n // k), (n + k - 1) // k, n // k + 1, n // k + (n % k > 0)
+                left = fd[0].left
+                arg_txt = norm_text(st.iter.args[0])
+                if (isinstance(left, _ast.UnaryOp) and isinstance(left.op, _ast.USub)) or block in norm_text(left) \
+                        or "%" in arg_txt or "+ 1" in arg_txt or "ceil" in arg_txt:
+                    continue
                 i = st.target.id
                 # slices i*block:(i+1)*block, written inline or through `sl = slice(i*block, (i+1)*block)`
                 def is_block_slice(lo, hi):
